@@ -311,6 +311,7 @@ class SpecModel:
             ("dataclasses", "dataclass"): ExternalV("dataclasses.dataclass"),
             ("dataclasses", "fields"): ExternalV("dataclasses.fields"),
             ("math", "ceil"): ExternalV("math.ceil"),
+            ("itertools", "islice"): ExternalV("itertools.islice"),
         }
         return ext.get((modname, attr), Opaque(f"external {modname}.{attr}"))
 
@@ -670,6 +671,20 @@ class SpecModel:
                 return Opaque("range with step")
             if f.name == "enum.auto":
                 return ExternalV("enum.auto()")
+            if f.name == "itertools.islice" and len(args) == 2 and as_int(args[1]) is not None and not kwargs:
+                n_ = as_int(args[1])
+                src = args[0]
+                if isinstance(src, TupleV):
+                    return TupleV(list(src.items[:n_]))
+                if isinstance(src, RangeV):
+                    return TupleV(list(range(src.start, src.stop))[:n_])
+                if isinstance(src, NamedRangeV):
+                    items = []
+                    for i in range(src.start, min(src.stop, src.start + n_)):
+                        name = "{b}.{i:0{w}x}".format(b=src.name, i=i - src.start, w=src.nibbles())
+                        items.append(EnumMember(src.cls, name, i))
+                    return TupleV(items)
+                return Opaque("islice of unmodelled iterable")
             if f.name in ("builtins.tuple", "builtins.list", "builtins.set", "builtins.frozenset") and len(args) == 1 and not kwargs \
                     and isinstance(args[0], TupleV):
                 items = list(args[0].items)
@@ -691,7 +706,7 @@ class SpecModel:
         if isinstance(f, BoundV):
             return self.call_bound(f, args, kwargs, mod)
         if isinstance(f, (FuncV, LambdaV)):
-            return self.call_value(f, args, mod)
+            return self.call_value(f, args, mod, kwargs)
         return Opaque("call " + norm(node.func)[:60])
 
     def call_bound(self, f: "BoundV", args, kwargs, mod):
@@ -721,8 +736,9 @@ class SpecModel:
             return self.call_value(fn, [cls] + args, mod)
         return Opaque(f"method {cls.name}.{fn.node.name}")
 
-    def call_value(self, f, args, mod):
-        """Evaluate a pure function / lambda: body must be [docstring] + `return <expr>`."""
+    def call_value(self, f, args, mod, kwargs=None):
+        """Evaluate a pure function / lambda: the body must be [docstring] + straight-line `name = <expr>` bindings +
+        `return <expr>` (table-building helpers of the declarative modules)."""
         if isinstance(f, LambdaV):
             params = [a.arg for a in f.node.args.args]
             env = dict(f.env)
@@ -730,15 +746,27 @@ class SpecModel:
             return self.pure(f.node.body, env, mod)
         if isinstance(f, FuncV):
             body = [s for s in f.node.body if not (isinstance(s, ast.Expr) and isinstance(s.value, ast.Constant))]
-            if len(body) != 1 or not isinstance(body[0], ast.Return):
-                return Opaque(f"function {f.node.name} is not a single return")
+            if not body or not isinstance(body[-1], ast.Return) or body[-1].value is None or not all(
+                    isinstance(s, ast.Assign) and len(s.targets) == 1 and isinstance(s.targets[0], ast.Name) for s in body[:-1]):
+                return Opaque(f"function {f.node.name} is not straight-line bindings + return")
             a = f.node.args
-            params = [x.arg for x in a.args]
+            params = [x.arg for x in a.args] + [x.arg for x in a.kwonlyargs]
             env = dict(self.envs.get(f.module.name, {}))
-            env.update(zip(params, args))
+            for p_, d in zip(reversed([x.arg for x in a.args]), reversed(a.defaults)):
+                env[p_] = self._eval(d, dict(self.envs.get(f.module.name, {})), f.module, None)
+            for x, d in zip(a.kwonlyargs, a.kw_defaults):
+                if d is not None:
+                    env[x.arg] = self._eval(d, dict(self.envs.get(f.module.name, {})), f.module, None)
+            env.update(zip([x.arg for x in a.args], args))
+            for k, v in (kwargs or {}).items():
+                if k not in params:
+                    return Opaque(f"unexpected keyword {k} for {f.node.name}")
+                env[k] = v
             if a.vararg:
-                env[a.vararg.arg] = TupleV(list(args[len(params):]))
-            return self._eval(body[0].value, env, f.module, None)
+                env[a.vararg.arg] = TupleV(list(args[len(a.args):]))
+            for s in body[:-1]:
+                env[s.targets[0].id] = self._eval(s.value, env, f.module, None)
+            return self._eval(body[-1].value, env, f.module, None)
         return Opaque("call of non-function")
 
     # pure-expression evaluator for the filter lambdas (constant folding of declarative code)
